@@ -16,11 +16,13 @@ PROPS = {
             {"harness": "H_C01_json", "quick": {"n": 2}, "thorough": {"n": 3}},
             {"harness": "H_C01_many", "quick": {"n": 2}, "thorough": {"n": 3}},
             {"harness": "H_C01_longline", "quick": {"len": 70000}, "thorough": {"len": 70000}},
+            {"harness": "H_C01_longline", "params": {"len": 1100000}},
+            {"harness": "H_C01_twofiles", "quick": {"calls": 3}, "thorough": {"calls": 4}},
             {"harness": "H_C01_shadow", "quick": {"n": 2}, "thorough": {"n": 3}},
             {"harness": "H_C01_mixed", "thorough_only": True, "thorough": {"n": 1, "m": 1}, "timeout_s": 900},
         ],
         "bounds": {"quick": "MatchSnapshot text: every byte string <= 5 bytes; 1..3 lines each of 8 shapes around the tokens --- and /-/-/-/ with symbolic filler, via MatchSnapshot and MatchYAML next to a pre-existing entry; "
-                            "JSON templates with string leaves <= 2 bytes; 11 calls in one test (ordinals 1 and 10 symbolic); one 70 000-byte line; a body line shaped like another test's header",
+                            "JSON templates with string leaves <= 2 bytes; 11 calls in one test (ordinals 1 and 10 symbolic); one 70 000-byte and one 1 100 000-byte line; one test recording 2..3 calls into two files through the three keyed entry points, three executions; a body line shaped like another test's header",
                    "thorough": "every byte string <= 7 bytes; 1..4 structured lines; mixes of the three kinds over two tests"},
         "assumptions": COMMON_ASSUME + ["no line of the text ends in a carriage return (documented limitation)"],
         "outside": ["structured Go values (only their formatted text is quantified)",
@@ -36,8 +38,10 @@ PROPS = {
             {"harness": "H_C02_snapshot", "params": {"ascii": 0, "n0lo": 1, "n0hi": 1, "n1lo": 3, "n1hi": 3}},
             {"harness": "H_C02_struct", "quick": {"lines": 2}, "thorough": {"lines": 2}},
             {"harness": "H_C02_standalone", "quick": {"n": 3}, "thorough": {"n": 4}},
+            {"harness": "H_C02_json"},
+            {"harness": "H_C02_ansi"},
         ],
-        "bounds": {"quick": "MatchSnapshot; ASCII texts <= 3 bytes each; arbitrary bytes <= 2 each; arbitrary 3 bytes vs 1 byte; 7-byte vs 3-byte ASCII texts (escape token vs terminator)",
+        "bounds": {"quick": "MatchSnapshot; ASCII texts <= 3 bytes each; arbitrary bytes <= 2 each; arbitrary 3 bytes vs 1 byte; 7-byte vs 3-byte ASCII texts (escape token vs terminator); stored JSON entries differing from the received document's stored form in value or only in layout (MatchJSON, MatchStandaloneJSON); texts differing only inside terminal escape sequences",
                    "thorough": "ASCII texts <= 5 bytes each; arbitrary bytes <= 2 each; 7 vs 3"},
         "assumptions": COMMON_ASSUME + ["no line of either text ends in a carriage return (documented limitation)"],
         "outside": [],
@@ -54,9 +58,11 @@ PROPS = {
             {"harness": "H_C13_empty", "params": {"ascii": 0, "nalo": 3, "nahi": 3, "nblo": 1, "nbhi": 1}},
             {"harness": "H_C13_empty", "params": {"ascii": 0, "nalo": 1, "nahi": 1, "nblo": 3, "nbhi": 3}},
             {"harness": "H_C13_render", "quick": {"lines": 3}, "thorough": {"lines": 4}},
+            {"harness": "H_C13_render_long"},
+            {"harness": "H_C13_collisions"},
         ],
         "bounds": {"quick": "op-codes: all pairs of line sequences up to 4+4 lines (every equality pattern) and all pairs over a 3-letter alphabet up to 5+5 lines, 12- and 210-line sequences with one free line each; "
-                            "emptiness: ASCII texts <= 3 bytes, arbitrary bytes <= 2, arbitrary 3 bytes vs 1 byte (a three-byte rune against an invalid byte); rendering: <= 3 lines of one letter each, with/without final newline",
+                            "emptiness: ASCII texts <= 3 bytes, arbitrary bytes <= 2, arbitrary 3 bytes vs 1 byte (a three-byte rune against an invalid byte); rendering: <= 3 lines of one letter each, with/without final newline; 24-line texts differing in two places far apart (two hunks); eight known collision pairs of common 32-bit string hashes",
                    "thorough": "op-codes up to 5+5 lines (any alphabet), 3-letter alphabet up to 6+6, 4-letter alphabet 6+5, 12 lines with 2 free lines each; emptiness ASCII <= 4; rendering <= 4 lines"},
         "assumptions": COMMON_ASSUME + ["diffmatchpatch is summarised by: rune sequences equal <=> single Equal chunk (DESIGN 5.5)"],
         "outside": ["appearance of inline highlights (colour mode)", "line contents longer than one byte in the op-code harness (only equality of lines is observed by the code)"],
@@ -65,9 +71,11 @@ PROPS = {
         "runs": [
             {"harness": "H_C03_addressing", "quick": {"pre": 2, "steps": 3}, "thorough": {"pre": 11, "steps": 3}},
             {"harness": "H_C03_isolation", "reach": ["add", "update"], "quick": {"frames": 2, "n": 3}, "thorough": {"frames": 3, "n": 3}},
+            {"harness": "H_C03_lookalike"},
+            {"harness": "H_C01_twofiles", "quick": {"calls": 3}, "thorough": {"calls": 4}},
         ],
         "bounds": {"quick": "addressing: 2 distinct tests from a pool of 4 names with prefix relations, 0 or 2 earlier calls each, then 1..3 steps, each a passing / mismatching / invalid-JSON / matcher-error call of either test or the end of an execution of either test; "
-                            "isolation: files of 0..2 frames with bodies <= 3 arbitrary bytes, one add or update with a body <= 3 bytes",
+                            "isolation: files of 0..2 frames with bodies <= 3 arbitrary bytes, one add or update with a body <= 3 bytes; an earlier entry with a line that contains or ends with another slot's header; four spellings of one directory; one test recording into two files",
                    "thorough": "0..11 earlier calls (ordinals above 9); files of 0..3 frames"},
         "assumptions": COMMON_ASSUME + ["pre-existing files are well formed: bodies have no whole line `---` and no CR at end of line"],
         "outside": ["interleavings of concurrently running tests (see C06)", "ids that occur as a whole body line of another entry (known finding K2, see C01)"],
@@ -101,8 +109,9 @@ PROPS = {
             {"harness": "H_C12_concurrent", "stress": 2000, "quick": {"preempt": 1}, "thorough": {"preempt": 2}},
             {"harness": "H_C12_independent", "stress": 20000, "quick": {"preempt": 2}, "thorough": {"preempt": 3}},
             {"harness": "H_C11_location", "params": {"percent": 0}, "quick": {"n": 0}, "thorough": {"n": 1}},
+            {"harness": "H_C12_mismatch"},
         ],
-        "bounds": {"quick": "every subset of {Filename, Ext, Update, JSON} options; sequences of 1..2 of the five entry points through one shared Config; two goroutines issuing any pair of entry points through one shared Config, all schedules with <= 1 preemption; two Configs with different JSON options used by two goroutines at once (MatchJSON or MatchStandaloneJSON), stores to the library's package-level variables being scheduling points, <= 2 preemptions",
+        "bounds": {"quick": "a first call that passes or mismatches followed by a replaying call, any pair of entry points, Filename unset / plain / with a directory part; every subset of {Filename, Ext, Update, JSON} options; sequences of 1..2 of the five entry points through one shared Config; two goroutines issuing any pair of entry points through one shared Config, all schedules with <= 1 preemption; two Configs with different JSON options used by two goroutines at once (MatchJSON or MatchStandaloneJSON), stores to the library's package-level variables being scheduling points, <= 2 preemptions",
                    "thorough": "sequences of 1..3 entry points"},
         "assumptions": COMMON_ASSUME,
         "outside": ["interleavings between plain memory accesses to heap objects (the scheduler interleaves at file-system and lock operations, and in H_C12_independent at stores to package-level variables; writes to the Config are caught by the write monitor in any schedule)"],
@@ -111,6 +120,7 @@ PROPS = {
         "runs": [
             {"harness": "H_C17_matcher_errors", "quick": {"matchers": 2}, "thorough": {"matchers": 3}},
             {"harness": "H_C17_real", "reach": ["error", "ok"]},
+            {"harness": "H_C15_reuse"},
         ],
         "bounds": {"quick": "1..2 matchers, each an arbitrary implementation of the matcher interface returning 0..2 errors and rewriting or not; "
                             "MatchJSON, MatchYAML, MatchStandaloneJSON; CI x Update option x UPDATE_SNAPS (<= 4 bytes) x entry missing/present; "
@@ -123,6 +133,8 @@ PROPS = {
         "runs": [
             {"harness": "H_C18_yaml", "reach": ["valid", "invalid"], "quick": {"n": 4}, "thorough": {"n": 6}, "args": ["-sample-every", "11"], "validate": {"quick": 5, "thorough": 10}},
             {"harness": "H_C04_update", "params": {"struct": 1, "frames": 1}, "quick": {"lines": 2}, "thorough": {"lines": 3}},
+            {"harness": "H_C10_bodies", "quick": {"lines": 2}, "thorough": {"lines": 3}},
+            {"harness": "H_C01_longline", "params": {"len": 1100000}},
         ],
         "bounds": {"quick": "documents: arbitrary bytes <= 4, and five part-concrete shapes (multi-document stream, block scalar with a --- line, comment, "
                             "header-like flow sequence, trailing blank lines) with symbolic leaves; string and []byte input; final newline present/absent",
@@ -163,9 +175,12 @@ PROPS = {
         "runs": [
             {"harness": "H_clean", "params": {"prop": 7}, "quick": {"count": 2, "n": 0}, "thorough": {"count": 2, "n": 1, "allsubsets": 1}, "timeout_s": {"thorough": 1800}},
             {"harness": "H_C10_bodies", "quick": {"lines": 2}, "thorough": {"lines": 3}},
+            {"harness": "H_C10_bodies", "params": {"big": 5000}},
+            {"harness": "H_C10_names"},
+            {"harness": "H_C07_symlink"},
         ],
         "bounds": {"quick": "program: TestA (2 calls), TestB (1 call), TestS (1 standalone call), -count 1..2; directory with optional stale ordinal, stale test, "
-                            "stale standalone file, stale multi-entry file, 3 layouts; CI x UPDATE_SNAPS (<= 5 bytes) x sort; one live body symbolic (<= 1 byte)",
+                            "stale standalone file, stale multi-entry file, 3 layouts; CI x UPDATE_SNAPS (<= 5 bytes) x sort; one live body symbolic (<= 1 byte); a 5000-byte live body; nine unusual test names; the snapshot directory reached through a symbolic link",
                    "thorough": "every subset of the optional features, one symbolic body"},
         "assumptions": COMMON_ASSUME + ["flag test.run is empty (no -run filter; filtered runs are C08)"],
         "outside": ["test names that do not start with `Test` (Benchmark*/Fuzz* satisfy the testingT interface; Clean does not recognise their entries)"],
@@ -174,6 +189,8 @@ PROPS = {
         "runs": [
             {"harness": "H_clean", "params": {"prop": 9}, "reach": ["stale-entries", "second-file-stale"], "quick": {"count": 2, "n": 0}, "thorough": {"count": 2, "n": 1, "allsubsets": 1}, "timeout_s": {"thorough": 1800}},
             {"harness": "H_C08_skip", "reach": ["skip-mode"], "quick": {"lit": 1}, "thorough": {"lit": 2}},
+            {"harness": "H_C08_midskip"},
+            {"harness": "H_C07_symlink"},
         ],
         "bounds": {"quick": "same program and directory shapes as C07; all three Clean modes incl. sort requested on an unsorted file with stale entries",
                    "thorough": "-count 1..3, all bodies symbolic"},
@@ -183,6 +200,7 @@ PROPS = {
     "C08": {
         "runs": [
             {"harness": "H_C08_skip", "reach": ["skip-mode", "run-mode"], "quick": {"lit": 2}, "thorough": {"lit": 3}},
+            {"harness": "H_C08_midskip"},
         ],
         "bounds": {"quick": "package with TestA, TestA/sub, TestAB, TestC, Test1 sharing one snapshot file plus TestG in a second file; every subset skipped through "
                             "Skip/Skipf/SkipNow, or a -run pattern [^]lit[$] with lit of 1..2 symbolic bytes over {A,B,C,s,t,u,T,e,1}; clean mode",
@@ -197,9 +215,12 @@ PROPS = {
             {"harness": "H_C10_bodies", "quick": {"lines": 2}, "thorough": {"lines": 3}},
             {"harness": "H_C10_natural"},
             {"harness": "H_C10_ties"},
+            {"harness": "H_C10_bodies", "params": {"big": 5000}},
+            {"harness": "H_C10_names"},
+            {"harness": "H_C10_secondfile"},
         ],
         "bounds": {"quick": "files of 1..2 entries with ids Test<a-c> - <1-9> (symbolic letter and digit), bodies of <= 1 arbitrary byte, each entry stale or live, update x sort; "
-                            "one entry with a 1..2-line structured body (token shapes, header-like line) rewritten because of a stale or unsorted neighbour; one- vs two-digit ordinals (symbolic digits) in both orders",
+                            "one entry with a 1..2-line structured body (token shapes, header-like line) rewritten because of a stale or unsorted neighbour; one- vs two-digit ordinals (symbolic digits) in both orders; a 5000-byte body across bufio's read buffer; nine unusual test names (brackets, #, dashes, non-ASCII, Benchmark/Fuzz); three files examined in one go, the middle one needing nothing",
                    "thorough": "ordinals of 1..2 digits with empty bodies; structured bodies of 1..3 lines"},
         "assumptions": COMMON_ASSUME + ["well-formed file: ids pairwise distinct, bodies without a `---` line and without CR at end of line"],
         "outside": ["bodies with a whole line equal to the header of an entry of the same file (known finding K2)"],
@@ -207,9 +228,10 @@ PROPS = {
     "C11": {
         "runs": [
             {"harness": "H_C11_location", "params": {"percent": 1}, "quick": {"n": 1}, "thorough": {"n": 2}},
+            {"harness": "H_C11_nontest"},
         ],
         "bounds": {"quick": "Dir in {unset, relative, nested relative, absolute} x Filename x Ext x test name x sub-test name, each with a symbolic suffix of <= 1 byte over "
-                            "[a-z0-9._%-]; multi-entry / standalone / standalone JSON; 1st and 2nd standalone call; 0..2 helper frames in non-test files (one a closure); with and without trimpath",
+                            "[a-z0-9._%-]; multi-entry / standalone / standalone JSON; 1st and 2nd standalone call; 0..2 helper frames in non-test files (one a closure); with and without trimpath; the same helper reached afterwards from a second test file (with a dot in its name); a test function living in a non-test file, run as a sub-test body, reaching go-snaps through another non-test file",
                    "thorough": "suffixes of <= 2 bytes"},
         "assumptions": COMMON_ASSUME + ["runtime.Caller reports the interpreter's own call stack (real go-snaps frames; harness frames carry the file names the harness tags them with; "
                                         "testing.tRunner on top); a trimpath build is modelled as runtime.GOROOT()==\"\" with module-relative file names and the package directory as working directory"],
@@ -219,6 +241,7 @@ PROPS = {
         "runs": [
             {"harness": "H_C14_canonical", "quick": {"n": 1}, "thorough": {"n": 2, "v2sym": 1}},
             {"harness": "H_C14_invalid", "reach": ["valid", "invalid"], "quick": {"n": 3}, "thorough": {"n": 4}},
+            {"harness": "H_C12_independent", "stress": 20000, "quick": {"preempt": 2}, "thorough": {"preempt": 3}},
         ],
         "bounds": {"quick": "templates {K1:V1,K2:7}, {K1:{K2:V1}}, [V1,7] with symbolic keys (<= 1 printable byte, distinct, no escapes) and V1 in digit/string/true|false|null/{}|[]; "
                             "one symbolic white-space byte at any one of 7 structural gaps; default, unsorted-tab-indent and width-80 configurations; string, []byte and Go-value forms; "
@@ -242,9 +265,11 @@ PROPS = {
     "C06": {
         "runs": [
             {"harness": "H_C06_parallel", "stress": 20000, "quick": {"preempt": 2}, "thorough": {"preempt": 3}},
+            {"harness": "H_C06_twocalls", "stress": 20000, "quick": {"preempt": 2}, "thorough": {"preempt": 3}},
+            {"harness": "H_C06_three", "stress": 20000, "quick": {"preempt": 2}, "thorough": {"preempt": 2}},
         ],
-        "bounds": {"quick": "2 goroutines, one MatchSnapshot call each, every pair of {create, match, mismatch, update}; every interleaving at file-system and lock operations with <= 2 preemptions",
-                   "thorough": "<= 3 preemptions"},
+        "bounds": {"quick": "2 goroutines, one MatchSnapshot call each, every pair of {create, match, mismatch, update}; every interleaving at file-system and lock operations with <= 2 preemptions; 2 goroutines recording two new snapshots each (file present or brand new); 3 goroutines (two creates / an update / a create) each finishing on its own goroutine, <= 2 preemptions",
+                   "thorough": "<= 3 preemptions (three goroutines: 2)"},
         "assumptions": COMMON_ASSUME + ["each file-system operation and each lock operation is atomic; goroutines interleave only at those operations (sequentially consistent model)",
                                         "a schedule-dependent counterexample is confirmed natively by repeating the scenario with real goroutines until it shows"],
         "outside": ["the data-race clause in the Go-memory-model sense (race detector)", "more than 2 goroutines", "multi-syscall writes"],
@@ -261,7 +286,7 @@ PROPS = {
         "outside": ["YAML matchers (goccy/go-yaml)"],
     },
     "selftest": {
-        "runs": [{"harness": "H_selftest"}, {"harness": "H_selftest_regexp"}, {"harness": "H_selftest_lib"}],
+        "runs": [{"harness": "H_selftest"}, {"harness": "H_selftest_regexp"}, {"harness": "H_selftest_lib"}, {"harness": "H_selftest_minmax"}, {"harness": "H_selftest_json", "quick": {"n": 2}, "thorough": {"n": 3}}],
         "bounds": {"quick": "10 texts x ~35 library functions", "thorough": "same"},
         "assumptions": [],
         "outside": [],
